@@ -265,9 +265,9 @@ func c01Filtered(c *Ctx) {
 					continue
 				}
 				for _, in := range b.Instrs {
-					if ret, isRet := in.(*ssa.Return); isRet {
+					if ret, isRet := core.AsReturn(in); isRet {
 						nret++
-						if !valNonNil(ret.Results[0]) {
+						if !valNonNil(core.Res(ret, 0)) {
 							ok = false
 						}
 					}
@@ -497,8 +497,8 @@ func c01Modes(c *Ctx) {
 				}
 				seen[b] = true
 				for _, in := range b.Instrs {
-					if ret, isRet := in.(*ssa.Return); isRet {
-						for _, l := range core.FlattenPhi(ret.Results[0]) {
+					if ret, isRet := core.AsReturn(in); isRet {
+						for _, l := range core.FlattenPhi(core.Res(ret, 0)) {
 							call, _, isCall := core.CallResult(l)
 							k := ""
 							if isCall {
